@@ -2,6 +2,7 @@
 C04 - modules and hierarchy mirror the scanned directory tree (shares the streams)."""
 from __future__ import annotations
 
+import re
 import types
 
 from .. import scan_common as sc
@@ -410,6 +411,72 @@ def symlink_stream(ctx, stream, n):
                                    "theorem": "Pta.C04.*", "files": tree, "module_path": mp, "impl": plain, "model": parse_answer(an).get("M")})
 
 
+
+def _module_object_case(case):
+    """the module-object entry point with a complete option set vs the path entry point with the same option set"""
+    import types as _types
+
+    from ..impl import err_kind, graph_snapshot
+    from pytestarch import get_evaluable_architecture_for_module_objects
+
+    tree, mp, kw, plain_module = case
+    with sc.write_project(tree) as proj:
+        path = sc.real_scan(proj, "proj", mp, **kw)
+        rm, mm = _types.ModuleType("r"), _types.ModuleType("m")
+        rm.__file__ = proj.path("proj") + "/__init__.py"
+        # a module object that is a plain file stands for the directory that holds it (dirname of __file__)
+        mm.__file__ = proj.path(mp) + ("/" + plain_module if plain_module else "/__init__.py")
+        try:
+            obj = sc.snapshot_str(*graph_snapshot(get_evaluable_architecture_for_module_objects(rm, mm, **kw)))
+        except Exception as e:  # noqa: BLE001
+            obj = "ERR:" + err_kind(e)
+    return path, obj
+
+
+def module_object_options(ctx, stream, n):
+    rng = ctx.rng("module-objects")
+    cases = []
+    while len(cases) < n:
+        tree = sc.gen_tree(rng)
+        sc.fill_sources(rng, tree, externals=True)
+        dirs = sorted(p for p, v in tree.items() if v is None)
+        mp = rng.choice(dirs)
+        names = sorted({c for p in tree for c in p.split("/")[1:]}) or ["a"]
+        kw = {}
+        k = rng.randrange(4)
+        c = rng.choice(names).replace(".py", "")
+        if k == 1:
+            kw["exclusions"] = (rng.choice(["*" + c, "*" + c + "*", "*" + c + ".py"]),)
+        elif k == 2:
+            kw["exclusions"] = ()
+            kw["regex_exclusions"] = (".*/" + re.escape(c) + rng.choice(["$", r"(\.py)?$", ""]),)
+        if rng.random() < 0.5:
+            kw["exclude_external_libraries"] = False
+            e = rng.randrange(3)
+            if e == 1:
+                kw["external_exclusions"] = (rng.choice(["os*", "*lib*", "ext*", "*x"]),)
+            elif e == 2:
+                kw["regex_external_exclusions"] = (rng.choice([r"os(\..*)?$", r"ext\.lib", r".*x"]),)
+        if rng.random() < 0.5:
+            kw["level_limit"] = rng.randint(1, 3)
+        files_here = sorted(p.split("/")[-1] for p in tree if p.endswith(".py") and p.rsplit("/", 1)[0] == mp and not p.endswith("__init__.py"))
+        plain = rng.choice(files_here) if files_here and rng.random() < 0.3 else None
+        cases.append((tree, mp, kw, plain))
+    res = pmap(_module_object_case, cases, ctx.jobs, chunk=10)
+    for (tree, mp, kw, plain), (path, obj) in zip(cases, res):
+        stream.evaluations += 1
+        stream.count("options:" + "+".join(sorted(kw)) if kw else "options:default")
+        if kw:
+            stream.nontrivial.add(digest((sorted(tree.items()), mp, sorted(kw.items()), plain)))
+        if path != obj:
+            ctx.violations.append({"kind": "property-violation",
+                                   "what": "the module-object entry point builds a different architecture than the path entry point called with the same options",
+                                   "files": tree, "module_path": mp, "options": {k: list(v) if isinstance(v, tuple) else v for k, v in kw.items()},
+                                   "module___file__": plain or "__init__.py", "path_entry": path, "module_object_entry": obj})
+            if len(ctx.violations) >= 3:
+                return
+
+
 def coverage_note(ctx):
     src = "X = Y = E = 1\n" + "".join(sc.place("import os", [p]) for p in sc.POS_NAMES)
     reached = sc.positions_reached(src)
@@ -456,5 +523,9 @@ def run(ctx: Ctx, aspect="C02"):
     if aspect == "C04" and not ctx.violations:
         s = Stream(ctx, "trees with symbolic links (files and directories, to outside root_path and inside the tree) vs the same tree with regular files")
         symlink_stream(ctx, s, ctx.size(300, 6000))
+        s.finish()
+    if aspect == "C04" and not ctx.violations:
+        s = Stream(ctx, "module-object entry point vs path entry point under complete option sets (exclusions, regex exclusions, externals, external patterns, level limit; package and plain-file module objects)")
+        module_object_options(ctx, s, ctx.size(300, 6000))
         s.finish()
     return RULE
